@@ -57,6 +57,12 @@ var c14FieldLines = []string{
 	"GenPtr *Box[string]",
 	"Gen2 Pair[string, []int]",
 	"GenSelf Box[Box[int]]",
+	"GenSame Pair[string, string]",
+	"GenDuo Duo[string, string]",
+	"GenDuoPtr *Duo[int, int]",
+	"GenDuoNested Duo[Box[int], Box[int]]",
+	"GenDuoSlices []Duo[string, string]",
+	"GenDuoMixed Duo[string, int]",
 	"Err error",
 	"Ctx context.Context",
 	"Dur time.Duration",
@@ -88,6 +94,11 @@ const c14Support = `type Box[T any] struct {
 	Value T
 }
 
+type Duo[A, B any] struct {
+	First  A ` + "`json:\"first\"`" + `
+	Second B
+}
+
 type Pair[K comparable, V any] struct {
 	Key K
 	Val V
@@ -113,6 +124,11 @@ var c14Sigs = []struct {
 	{"(b models.Box[int]) error", []string{"// @Body(b)"}},
 	{"(b models.Box[int]) (models.Box[string], error)", []string{"// @Body(b)"}},
 	{"(p models.Pair[string, int]) error", []string{"// @Body(p)"}},
+	{"(p models.Pair[string, string]) error", []string{"// @Body(p)"}},
+	{"(p models.Duo[string, string]) error", []string{"// @Body(p)"}},
+	{"(p models.Duo[int, int]) (models.Duo[string, int], error)", []string{"// @Body(p)"}},
+	{"() (models.Duo[models.Box[int], models.Box[int]], error)", nil},
+	{"() ([]models.Duo[bool, bool], error)", nil},
 	{"(a [3]int) error", []string{"// @Query(a)"}},
 	{"(s struct{ A int }) error", []string{"// @Body(s)"}},
 	{"(i interface{ M() }) error", []string{"// @Body(i)"}},
@@ -273,6 +289,12 @@ func c14Decorate(m c14Model) (*projgen.Project, []string) {
 			doc := []string{"// @Method(" + mm.Verb + ")", fmt.Sprintf("// @Route(/raw%d)", d.Target)}
 			mm.RawDoc = append(doc, v.doc...)
 			mm.RawSig = v.sig
+			// the packages the raw signature names (a method file only imports what its own methods need)
+			for pkgName, imp := range map[string]string{"models.": projgen.Module + "/models", "time.": "time", "unsafe.": "unsafe", "context.": "context"} {
+				if strings.Contains(v.sig, pkgName) {
+					mm.RawImports = append(mm.RawImports, imp)
+				}
+			}
 			labels = append(labels, "unsupported-signature")
 		case "doc":
 			if len(methods) == 0 {
@@ -483,10 +505,46 @@ func dedupe(in []string) []string {
 	return out
 }
 
+// c14Sweep walks the catalogues instead of sampling them: one generated base project, one decoration at a time, every
+// entry of the field, signature, annotation-line and tag catalogues once.
+func c14Sweep() []c14Model {
+	var base c14Model
+	for ex := 1; ex < 40; ex++ { // a base project with a struct in models and at least two methods
+		base = rapid.Custom(c14Gen).Example(ex)
+		structs, methods := 0, 0
+		for _, t := range base.Project.Types {
+			if t.Kind == "struct" && t.Pkg == "models" && len(t.Fields) > 0 {
+				structs++
+			}
+		}
+		for _, c := range base.Project.Controllers {
+			methods += len(c.Methods)
+		}
+		if structs > 0 && methods >= 2 {
+			break
+		}
+	}
+	base.Mutation = nil
+	var out []c14Model
+	add := func(kind string, n int) {
+		for v := 0; v < n; v++ {
+			m := base
+			m.Decos = []c14Deco{{Kind: kind, Target: 0, Variant: v}}
+			out = append(out, m)
+		}
+	}
+	add("field", len(c14FieldLines))
+	add("sig", len(c14Sigs))
+	add("doc", len(c14DocLines))
+	add("tag", len(c14Tags))
+	return out
+}
+
 func TestC14CLI(t *testing.T) {
 	harness.Run(t, harness.Prop[c14Model]{
 		ID:       "C14",
 		Gen:      c14Gen,
+		Sweep:    c14Sweep,
 		Check:    c14Check,
 		Classify: c14Classify,
 		Canon: func(m c14Model) string {
